@@ -51,6 +51,7 @@ class LetFiller(Visitor):
         macros = [self.visit(macro) for macro in circuit.macros.values()]
         sexpr = [
             "circuit",
+            *circuit.usepulses,
             *circuit.constants.values(),
             *registers,
             *macros,
@@ -60,12 +61,16 @@ class LetFiller(Visitor):
         return circuitbuilder.build(sexpr, inject_pulses=inject_pulses)
 
     def visit_BlockStatement(self, block):
+        statements = [self.visit(stmt) for stmt in block.statements]
+        if block.subcircuit:
+            return ["subcircuit_block", self.visit(block.iterations), *statements]
+
         if block.parallel:
             block_type = "parallel_block"
         else:
             block_type = "sequential_block"
 
-        sexpr = [block_type, *[self.visit(stmt) for stmt in block.statements]]
+        sexpr = [block_type, *statements]
         return sexpr
 
     def visit_LoopStatement(self, loop):
@@ -94,12 +99,12 @@ class LetFiller(Visitor):
     def visit_NamedQubit(self, qubit):
         """Visit a named qubit that may possibly have its index
         remapped. Doing so will change the name of the qubit."""
-        if isinstance(qubit.alias_index, Constant):
-            new_index = self.resolve_constant(qubit.alias_index)
-            new_from = self.visit(qubit.alias_from)
-            return new_from[new_index]
-        else:
-            return qubit
+        # The register this qubit comes from may itself depend on
+        # constants (its size or alias bounds), so it is always rebuilt
+        # and the index checked against it again.
+        new_index = self.visit(qubit.alias_index)
+        new_from = self.visit(qubit.alias_from)
+        return new_from[new_index]
 
     def visit_Register(self, reg):
         """Visit either a fundamental register or a map alias. Either may
@@ -107,7 +112,7 @@ class LetFiller(Visitor):
         if reg.fundamental:
             if isinstance(reg.size, Constant):
                 new_size = self.resolve_constant(reg.size)
-                return ["register", reg.name, new_size]
+                return Register(reg.name, new_size)
             else:
                 return reg
         else:
@@ -164,9 +169,6 @@ class RegisterVisitor(LetFiller):
     def visit_NamedQubit(self, qubit):
         """Visit a named qubit that may possibly have its index
         remapped. Doing so will change the name of the qubit."""
-        if isinstance(qubit.alias_index, Constant):
-            new_index = self.resolve_constant(qubit.alias_index)
-            new_from = self.visit(qubit.alias_from)
-            return NamedQubit(qubit.name, new_from, new_index)
-        else:
-            return qubit
+        new_index = self.visit(qubit.alias_index)
+        new_from = self.visit(qubit.alias_from)
+        return NamedQubit(qubit.name, new_from, new_index)
